@@ -286,7 +286,16 @@ async fn run_seg(case: &Value) -> Value {
     for k in 0..n {
         let tag = format!("tag-{}-{k}", case["id"].as_u64().unwrap_or(0));
         let pad = case["pads"][k].as_u64().unwrap_or(0) as usize;
-        stream.extend(reply_bytes(k + 1, &tag, pad, case["lookalike"].as_bool().unwrap_or(false)));
+        let mut r = reply_bytes(k + 1, &tag, pad, case["lookalike"].as_bool().unwrap_or(false));
+        // "end_at": the last message ends exactly at this offset of the peer's byte stream
+        if let (Some(t), true) = (case["end_at"].as_u64(), k + 1 == n) {
+            let want = (t as usize).saturating_sub(stream.len());
+            if want > r.len() {
+                let filler = "x".repeat(want - r.len());
+                r = reply_bytes(k + 1, &format!("{tag} {filler}"), 0, false);
+            }
+        }
+        stream.extend(r);
         tags.push(tag);
     }
     let mut cuts: Vec<usize> = case["cuts"].as_array().map(|a| a.iter().filter_map(|x| x.as_u64()).map(|x| x as usize).collect()).unwrap_or_default();
@@ -423,6 +432,7 @@ async fn run_close(case: &Value) -> Value {
     let manner = match case["manner"].as_str().unwrap_or("clean") {
         "abrupt" => CloseManner::Abrupt,
         "fin-only" => CloseManner::FinOnly,
+        "exit-leaving-a-helper-that-holds-stderr" => CloseManner::ExitLeavingHelper,
         "channel-close" => CloseManner::ChannelClose,
         _ => CloseManner::Clean,
     };
@@ -839,6 +849,15 @@ pub fn run_c06(cfg: &Cfg) -> i32 {
             push(&mut cases, tr, k, pads.clone(), vec![ends[0]], true, false, &format!("peer-stops-sending-after-last-message:{k}-replies-in-one-unit"));
             push(&mut cases, tr, k, pads.clone(), ends.clone(), true, false, &format!("peer-stops-sending-after-last-message:{k}-replies-one-per-unit"));
         }
+        // (3c) the peer's stream pauses exactly where a buffer of a typical capacity is full
+        // (powers of two and their sums), one byte before and one byte after
+        for t in [1024usize, 2048, 4096, 5120, 8192, 9216, 10240, 16384, 17408, 32768, 65536] {
+            for d in [-1i64, 0, 1] {
+                let end = (t as i64 + d) as usize;
+                cases.push(json!({"kind": "seg", "id": 900_000 + cases.len() as u64, "tr": tr.name(), "n": 1, "pads": [0], "cuts": [], "pipelined": true, "lookalike": false,
+                    "class": format!("stream-pauses-at-buffer-size:{}{}", t, match d { -1 => "-1", 0 => "", _ => "+1" }), "close_after": false, "end_at": end, "no_remap": true}));
+            }
+        }
         // (4) 1-byte dribble of a short stream
         {
             let pads = vec![0];
@@ -990,7 +1009,7 @@ pub fn run_c07(cfg: &Cfg) -> i32 {
         let manners: Vec<&str> = match tr {
             Tr::Ssh => vec!["clean", "channel-close", "abrupt", "fin-only"],
             Tr::Tls => vec!["clean", "abrupt", "fin-only"],
-            _ => vec!["clean", "abrupt"],
+            _ => vec!["clean", "abrupt", "exit-leaving-a-helper-that-holds-stderr"],
         };
         for point in ["before-hello", "inside-hello", "hello-without-delimiter", "after-hello-idle", "inside-reply", "reply-without-delimiter", "between-request-and-reply", "after-reply", "pending-close-session"] {
             for manner in &manners {
@@ -1230,6 +1249,42 @@ pub fn run_c05_real(cfg: &Cfg) -> i32 {
         }
         if rep.samples.len() < rep.max_samples {
             rep.sample(json!({"case": c, "script": r["script"], "client": r["client"]}));
+        }
+    }
+    rep.finish()
+}
+
+/// C10 over the real transports: large requests.
+pub fn run_c10_real(cfg: &Cfg) -> i32 {
+    let mut rep = Report::new(
+        "C10",
+        cfg,
+        "one evaluation = one real session (TLS / SSH / child process) over which a load-configuration request with a text payload of 100 B - 1.2 MB (metacharacters, quotes, non-ASCII, ]]>) and then a small request are sent; the peer checks that it received each as one well-formed document followed by one delimiter and recovers the payload; \
+         distinct = distinct (transport, size); non-trivial = payload larger than a pipe buffer (64 KiB)",
+    );
+    let sizes: Vec<usize> = if cfg.thorough() { vec![100, 4_000, 65_000, 65_536, 66_000, 131_072, 300_000, 1_200_000, 5_000_000] } else { vec![100, 65_000, 70_000, 300_000, 1_200_000] };
+    let mut cases = Vec::new();
+    let mut id = 0;
+    for tr in [Tr::Tls, Tr::Ssh, Tr::Cli] {
+        for &size in &sizes {
+            id += 1;
+            cases.push(json!({"kind": "big-request", "id": id, "tr": tr.name(), "size": size}));
+        }
+    }
+    let results = run_cases(cases, 8, &[], Duration::from_secs(90));
+    for cr in &results {
+        let (c, r) = (&cr.case, &cr.result);
+        let key = format!("{}|{}", c["tr"], c["size"]);
+        rep.case(if c["size"].as_u64().unwrap_or(0) > 65_536 { Some(key.as_bytes()) } else { None });
+        rep.count_n("payload_bytes_sent", r["payload_bytes"].as_u64().unwrap_or(0));
+        match r["verdict"].as_str().unwrap_or("") {
+            "held" => rep.count("held"),
+            "violated" => {
+                let symptoms: Vec<String> = r["symptoms"].as_array().map(|a| a.iter().filter_map(|s| s.as_str().map(ToString::to_string)).collect()).unwrap_or_default();
+                let primary = symptoms.first().map(|s| s.split('(').next().unwrap_or("").to_string()).unwrap_or_default();
+                rep.violation(&format!("real:{}:{primary}", c["tr"].as_str().unwrap_or("?")), &format!("{symptoms:?}"), json!({"case": c, "result": r}));
+            }
+            other => rep.inconclusive(&key, &format!("{other}: {}", r["why"].as_str().unwrap_or(""))),
         }
     }
     rep.finish()
